@@ -38,7 +38,7 @@ def wrap(kind, inner):
     raise ValueError(kind)
 
 
-def to_spec(topology, root=0, embedding="self", flavours=None, future=False, mods=None, names=None):
+def to_spec(topology, root=0, embedding="self", flavours=None, future=False, mods=None, names=None, nest=None):
     """-> universe spec. flavours[i]: class flavour; mods[i]: module index; names[i]: class name."""
     n = len(topology)
     flavours = flavours or ["dataclass"] * n
@@ -68,7 +68,10 @@ def to_spec(topology, root=0, embedding="self", flavours=None, future=False, mod
         for j, (target, kind) in enumerate(topology[i]):
             fields.append({"n": f"e{j}", "t": edge(kind, cls(target), mods[i], target)})
         fl = flavours[i]
-        return {"k": "class", "name": names[i], "mod": mods[i], "flavour": fl, "future": future, "fields": fields}
+        c_ = {"k": "class", "name": names[i], "mod": mods[i], "flavour": fl, "future": future, "fields": fields}
+        if nest and nest[i]:
+            c_["nest"] = True     # the class is declared in the body of another class (qualified name with a dot)
+        return c_
 
     if embedding == "edgealias":
         defined.add(root)          # inside the class bodies the root class is referred to, not re-defined
